@@ -26,7 +26,7 @@ var (
 // Mem returns the in-memory swap server (started on first use).
 func Mem() *MemServer {
 	memOnce.Do(func() {
-		m := &MemServer{lis: bufconn.Listen(1 << 20)}
+		m := &MemServer{lis: bufconn.Listen(64 << 10)}
 		srv := &http.Server{Handler: http.HandlerFunc(func(w http.ResponseWriter, r *http.Request) {
 			m.cur.Load().(http.Handler).ServeHTTP(w, r)
 		}), ReadHeaderTimeout: 10 * time.Second}
